@@ -469,9 +469,11 @@ func joinOperator(v interface{}, operator string) (string, error) {
 
 			return "", fmt.Errorf("operator cannot have 0 operands")
 		}
+		// "not" with a single operand is the logical negation of that operand; with more it is the != operator
+		negation := operator == " != " && len(arr) == 1
 		ops := make([]string, len(arr))
 		for i := 0; i < len(arr); i++ {
-			ope, err := parseOperand(arr[i], false, operator == " != ")
+			ope, err := parseOperand(arr[i], false, negation)
 			if err != nil {
 
 				return "", err
@@ -511,14 +513,22 @@ func joinSet(v interface{}, operator string) (string, error) {
 func parseOperand(o interface{}, noWrap bool, negation bool) (string, error) {
 	switch operandType := o.(type) {
 	case string:
+		if negation {
+
+			return "!(" + operandType + ")", nil
+		}
 
 		return operandType, nil
 	case float64:
+		if negation {
+
+			return "", fmt.Errorf("a number cannot be negated")
+		}
 
 		return fmt.Sprint(operandType), nil
 	case bool:
 
-		if operandType {
+		if operandType != negation {
 
 			return "true", nil
 		}
@@ -531,13 +541,13 @@ func parseOperand(o interface{}, noWrap bool, negation bool) (string, error) {
 
 			return expr, err
 		}
+		if negation {
+
+			return "!(" + expr + ")", nil
+		}
 		if expNoWrap || noWrap {
 
 			return expr, nil
-		}
-
-		if negation {
-			return "!(" + expr + ")", nil
 		}
 
 		return "(" + expr + ")", nil
